@@ -769,12 +769,18 @@ class IDManager:
         *,
         size: int,
         upload_time: Optional[datetime] = None,
+        description: Optional[str] = None,
     ):
+        """Records that the image with the given id was uploaded to the terminal.
+        `description` is the description of the image that was actually transmitted;
+        if it is omitted, the description currently assigned to the id is recorded."""
         if upload_time is None:
             upload_time = datetime.now()
         info = self.get_info(id)
         if info is None:
             return
+        if description is None:
+            description = info.description
         with closing(self.conn.cursor()) as cursor:
             cursor.execute(
                 f"""INSERT INTO upload
@@ -787,7 +793,7 @@ class IDManager:
                 """,
                 (
                     id,
-                    info.description,
+                    description,
                     size,
                     terminal,
                     upload_time.isoformat(),
